@@ -2,6 +2,8 @@ import Toodee.Spec.OpsSpec
 import Toodee.Spec.Cells
 import Toodee.Impl.Sort
 import Toodee.Proofs.SortLemmas
+import Toodee.Proofs.CopyLemmas
+import Toodee.Properties.C04
 /-
   C16 — Sorting by a row permutes whole columns into order (and the shared machinery for C17).
 
@@ -103,5 +105,42 @@ theorem C16_cols_bijective (C R : Nat) (p : List Nat) (hp : p.Perm (List.range C
   · have he' : p.getD c c = p.getD c' c' := he
     rw [hget c hc, hget c' hc'] at he'
     exact hfacts.2.1 c c' (by omega) (by omega) he'
+
+/-- the first clause of the property, on the result buffer: after `sort_by_row` the chosen row is ordered by the comparison
+    (`le` a total preorder); likewise for any permutation satisfying the contract of `sort_unstable_by` -/
+theorem C16_result_row_sorted (v : VW) (buf : List α) (h : v.Inv buf.length) (p : List Nat)
+    (hp : p.Perm (List.range v.numCols)) (row : Nat) (hr : row < v.numRows) (le : α → α → Bool)
+    (hsorted : (p.filterMap ((readWin buf (v.rowWin row))[·]?)).Pairwise (fun a b => le a b = true)) :
+    (readWin (gather buf (v.mapCells (sortColsG p))) (v.rowWin row)).Pairwise (fun a b => le a b = true) ∧
+    readWin (gather buf (v.mapCells (sortColsG p))) (v.rowWin row) = p.filterMap ((readWin buf (v.rowWin row))[·]?) := by
+  have hlen : p.length = v.numCols := by rw [hp.length_eq, List.length_range]
+  have hg : ∀ c r, c < v.numCols → r < v.numRows →
+      (sortColsG p (c, r)).1 < v.numCols ∧ (sortColsG p (c, r)).2 < v.numRows := fun c r hc hr' => by
+    have := (C16_cols_bijective v.numCols v.numRows p hp).1 c r hc hr'
+    exact ⟨this.1, by rw [this.2]; exact hr'⟩
+  obtain ⟨_, _, hcell⟩ := C04_frame_perm v buf h (sortColsG p) hg
+  have hsome : ∀ x ∈ p, ((readWin buf (v.rowWin row))[x]?).isSome := by
+    intro x hx
+    have hx' : x < v.numCols := List.mem_range.1 (hp.mem_iff.1 hx)
+    rw [readWin_getElem?, if_pos (show x < (v.rowWin row).len from hx')]
+    show (buf[v.pos 0 row + x]?).isSome
+    rw [VW.pos_zero_add, List.getElem?_eq_getElem (VW.pos_lt h hx' hr)]
+    rfl
+  have heq : readWin (gather buf (v.mapCells (sortColsG p))) (v.rowWin row)
+      = p.filterMap ((readWin buf (v.rowWin row))[·]?) := by
+    apply List.ext_getElem?
+    intro k
+    rw [readWin_getElem?, filterMap_getElem?_of_isSome _ _ hsome]
+    show (if k < v.numCols then (gather buf (v.mapCells (sortColsG p)))[v.pos 0 row + k]? else none) = _
+    by_cases hk : k < v.numCols
+    · have hpk : p.getD k k < v.numCols := (hg k row hk hr).1
+      have hpk' : p[k]? = some (p.getD k k) := by
+        rw [List.getD_eq_getElem?_getD, List.getElem?_eq_getElem (by omega)]; rfl
+      rw [if_pos hk, VW.pos_zero_add, hcell k row hk hr, hpk', Option.bind_some, readWin_getElem?,
+        if_pos (show p.getD k k < (v.rowWin row).len from hpk)]
+      show buf[v.pos (p.getD k k) row]? = buf[v.pos 0 row + p.getD k k]?
+      rw [VW.pos_zero_add]
+    · rw [if_neg hk, List.getElem?_eq_none (by omega)]; rfl
+  exact ⟨by rw [heq]; exact hsorted, heq⟩
 
 end Toodee
